@@ -39,7 +39,9 @@ def code_of(obj):
             obj = obj.__func__
         elif isinstance(obj, functools.partial):
             obj = obj.func
-        elif hasattr(obj, '__wrapped__') and not isinstance(obj, types.FunctionType):
+        elif hasattr(obj, '__wrapped__'):
+            # lru_cache objects and functools.wraps-decorated functions: observe the real body
+            # (a decorator's shared ``wrapper`` code object would fire for every decorated function)
             obj = obj.__wrapped__
         elif isinstance(obj, types.FunctionType):
             return obj.__code__
